@@ -74,6 +74,10 @@ def split_span(rng, span, depth, allow):
             choices.append("dot")
         if "ddot" in allow and base * 8 <= 128:
             choices.append("ddot")
+        if "dot" in allow and base * 4 <= 128:
+            choices.append("dotpair")
+        if "ddot" in allow and base * 16 <= 128:
+            choices.append("dddot")
         if "t3" in allow and base * 2 <= 128:
             choices.append("t3")
         if "t5" in allow and base * 4 <= 128:
@@ -94,6 +98,17 @@ def split_span(rng, span, depth, allow):
         return parts
     if c == "ddot":
         parts = [[_b(base * 2), 2, 1, 1], [_b(base * 8), 0, 1, 1]]
+        if rng.random() < 0.5:
+            parts.reverse()
+        return parts
+    if c == "dotpair":
+        # two dotted values and one plain value of the same base: 3/(2b) + 3/(2b) + 1/b = 4/b
+        parts = [[_b(base * 4), 1, 1, 1], [_b(base * 4), 1, 1, 1], [_b(base * 4), 0, 1, 1]]
+        rng.shuffle(parts)
+        return parts
+    if c == "dddot":
+        # triple-dotted value and its complement: 15/(8b) + 1/(8b) = 2/b
+        parts = [[_b(base * 2), 3, 1, 1], [_b(base * 16), 0, 1, 1]]
         if rng.random() < 0.5:
             parts.reverse()
         return parts
